@@ -7,6 +7,7 @@ from fractions import Fraction
 import z3
 
 from . import ops, extract
+from . import keyed as _keyed
 from .ops import exc, is_number
 from .values import (
     Ref, ListE, DequeE, SetE, DictE, ObjE, NdE, SymListE, FuncVal, BoundMethod, ClassVal, BuiltinClass,
@@ -88,6 +89,9 @@ def getattr(I, st, v, name):
                 return
             if m is not None:
                 yield st, bind_member(I, st, m, v, e.cls)
+                return
+            if where is not None:
+                yield st, None  # a class attribute whose value is None (e.g. Assembly._BLOCK_TYPE) exists
                 return
             ga, _ = I.class_lookup(e.cls, "__getattr__")
             if ga is not None:
@@ -217,6 +221,10 @@ def getattr(I, st, v, name):
                 yield from I.call(m, [v], {}, st)
             else:
                 yield st, BoundMethod(m, v)
+            return
+        if m is not None and not isinstance(m, FuncVal) and M.is_enum_class(I, v.cls):
+            # another member reached through a member (self.FULL_CORE inside an Enum method; Python >= 3.12 / <= 3.10)
+            yield st, enum_member(I, st, v.cls, name)
             return
     if isinstance(v, str):
         yield st, str_method(I, st, v, name)
@@ -617,9 +625,13 @@ def dict_method(I, st, ref, name):
     def get(I, st, a, k):
         d = D(st)
         default = a[1] if len(a) > 1 else k.get("default", None)
-        if M.has_symkey(a[0]) or M.dict_symkeyed(st.get(ref)):
+        if M.symmode(I, st, st.get(ref), a[0]):
             for s2, v in M.dict_symbolic_get(I, st, st.get(ref), a[0]):
                 yield s2, (default if isinstance(v, Exc) else v)
+            return
+        if _keyed.needs_resolution(I, st, d, a[0]):
+            for s2, k1, found in _keyed.resolve_key(I, st, ref, a[0]):
+                yield s2, (k1 if isinstance(k1, Exc) else (s2.get(ref).items[k1] if found else default))
             return
         yield st, d.get(I.hashable(a[0]), default)
 
@@ -649,8 +661,19 @@ def dict_method(I, st, ref, name):
 
     def pop(I, st, a, k):
         d = D(st)
-        if M.dict_symkeyed(st.get(ref)):
+        if M.symmode(I, st, st.get(ref), a[0]):
             raise Unsupported("dict.pop with symbolic keys")
+        if not is_z3(a[0]) and _keyed.needs_resolution(I, st, d, a[0]):
+            for s2, k1, found in _keyed.resolve_key(I, st, ref, a[0]):
+                if isinstance(k1, Exc):
+                    yield s2, k1
+                elif found:
+                    yield s2, s2.get(ref).items.pop(k1)
+                elif len(a) > 1:
+                    yield s2, a[1]
+                else:
+                    yield s2, exc("KeyError", k1)
+            return
         key = I.hashable(a[0])
         if key in d:
             yield st, d.pop(key)
@@ -661,8 +684,18 @@ def dict_method(I, st, ref, name):
 
     def setdefault(I, st, a, k):
         d = D(st)
-        if M.dict_symkeyed(st.get(ref)):
+        if M.symmode(I, st, st.get(ref), a[0]):
             raise Unsupported("dict.setdefault with symbolic keys")
+        if not is_z3(a[0]) and _keyed.needs_resolution(I, st, d, a[0]):
+            for s2, k1, found in _keyed.resolve_key(I, st, ref, a[0]):
+                if isinstance(k1, Exc):
+                    yield s2, k1
+                    continue
+                d2 = s2.get(ref).items
+                if not found:
+                    d2[k1] = a[1] if len(a) > 1 else None
+                yield s2, d2[k1]
+            return
         key = I.hashable(a[0])
         if key not in d:
             d[key] = a[1] if len(a) > 1 else None
@@ -741,6 +774,13 @@ def set_method(I, st, ref, name):
             out = [x for x in out if x not in other]
         yield st, st.alloc(SetE(out))
 
+    def difference_update(I, st, a, k):
+        # s.difference_update(*others): remove every element found in any of the others (in place, returns None)
+        for src in a:
+            other = [I.hashable(x) for x in I.iterate(src, st)]
+            S(st)[:] = [x for x in S(st) if x not in other]
+        yield st, None
+
     def issubset(I, st, a, k):
         other = I.iterate(a[0], st)
         yield st, all(x in other for x in S(st))
@@ -749,7 +789,7 @@ def set_method(I, st, ref, name):
         yield st, st.alloc(SetE(S(st)))
 
     tbl = dict(add=add, discard=discard, remove=remove, update=update, union=union, intersection=intersection,
-               difference=difference, issubset=issubset, copy=copy)
+               difference=difference, difference_update=difference_update, issubset=issubset, copy=copy)
     if name not in tbl:
         raise Unsupported("set method " + name)
     return bi("set." + name, tbl[name])
@@ -860,7 +900,21 @@ def call_builtin_class(I, st, c, args, kwargs):
         elif isinstance(v, Fraction):
             yield st, repr(float(v))
         else:
-            yield st, Opaque("str()")
+            # str(x) = type(x).__str__(x) when the class (of an object or an enum member) defines __str__
+            vcls = None
+            if isinstance(v, Ref) and st.get(v).kind == "obj" and isinstance(st.get(v).cls, ClassVal):
+                vcls = st.get(v).cls
+            elif isinstance(v, M.EnumMember) and isinstance(v.cls, ClassVal):
+                vcls = v.cls
+            m = I.class_lookup(vcls, "__str__")[0] if vcls is not None else None
+            if isinstance(m, FuncVal):
+                for st1, r in I.call(m, [v], {}, st):
+                    if not isinstance(r, Exc) and not isinstance(r, (str, Opaque)):
+                        yield st1, exc("TypeError", "__str__ returned non-string")
+                    else:
+                        yield st1, r
+            else:
+                yield st, Opaque("str()")
     elif n == "tuple":
         yield st, tuple(I.iterate(args[0], st)) if args else ()
     elif n == "list":
@@ -1435,6 +1489,24 @@ def isinstance_model(I, st, v, cls):
         raise Unsupported("isinstance against an unmodelled class")
     if isinstance(cls, Unknown):
         raise Unsupported("isinstance against unmodelled " + cls.desc)
+    if isinstance(cls, BuiltinClass) and cls.name == "collections.abc.Iterable":
+        # Iterable.__subclasshook__: the type (or a base) defines __iter__
+        if isinstance(v, Ref):
+            e = st.get(v)
+            if e.kind == "obj":
+                if not isinstance(e.cls, ClassVal) or "__tuple__" in e.attrs:
+                    raise Unsupported("isinstance(obj, Iterable) for this object")
+                return I.class_lookup(e.cls, "__iter__")[0] is not None
+            return True  # list, deque, dict, set, ndarray, symbolic-length list
+        if isinstance(v, (str, tuple, frozenset)):
+            return True
+        from .symex import FrozenList as _FL, FrozenDict as _FD, FrozenNd as _FN
+
+        if isinstance(v, (_FL, _FD, _FN)):
+            return True
+        if v is None or isinstance(v, (bool, int, Fraction)) or (is_z3(v) and (z3.is_int(v) or z3.is_real(v) or z3.is_bool(v))):
+            return False
+        raise Unsupported("isinstance(%r, Iterable)" % (v,))
     if isinstance(v, Ref):
         e = st.get(v)
         if e.kind == "obj":
@@ -1713,7 +1785,13 @@ def make_ext_modules(I):
 
     E["functools"] = {"partial": bi("functools.partial", lambda I, st, a, k: iter([(st, Partial(a[0], a[1:], k))])),
                       "lru_cache": bi("functools.lru_cache", lambda I, st, a, k: iter([(st, a[0] if a else Opaque("lru_cache"))]))}
-    E["operator"] = {}
+    def _op2(opname):
+        # operator.mul / truediv / add / sub (a, b) = the binary operator on the same operands
+        return lambda I, st, a, k: M.binop(I, st, opname, a[0], a[1])
+
+    E["operator"] = {"mul": bi("operator.mul", _op2("Mult")), "truediv": bi("operator.truediv", _op2("Div")),
+                     "add": bi("operator.add", _op2("Add")), "sub": bi("operator.sub", _op2("Sub"))}
+    E["collections.abc"] = {"Iterable": BuiltinClass("collections.abc.Iterable")}
     E["warnings"] = {"warn": bi("warnings.warn", lambda I, st, a, k: iter([(st, None)]))}
 
     from . import npmodel, bytesmodel
